@@ -7,6 +7,17 @@ from .. import linkutil as lu
 from ..elfread import Elf
 
 NEEDS_WILD = True
+
+
+def run_bytes(path, timeout=20):
+    """Run a linked program; returns (returncode, raw stdout bytes)."""
+    import subprocess
+    try:
+        p = subprocess.run([path], stdout=subprocess.PIPE, stderr=subprocess.PIPE, timeout=timeout)
+        return p.returncode, p.stdout
+    except subprocess.TimeoutExpired:
+        return -999, b""
+
 LEAN_MODULES = ["WildModel.Props.C30"]
 THEOREMS = [
     "Wild.InitFini.initfini_order_eq_gnu_partial",
@@ -322,9 +333,9 @@ def run(ctx):
                 res = read_arrays(out)
                 can = canon(res)
                 # native run must call the entries in exactly the order read statically
-                rr, so, se = lu.run_native(out)
+                rr, so = run_bytes(out)
                 exp = expected_native(res)
-                got = list(so.encode("latin1")) if rr == 0 else f"rc={rr}"
+                got = list(so) if rr == 0 else f"rc={rr}"
                 if "?" not in can and got != exp:
                     ctx.cov["impl_oracle_failures"] += 1
                     ctx.violation(f"native-vs-static:{lk}:{request(files)}", f"{lk}-linked program ran its constructors in order {got}, arrays read statically say {exp}",
